@@ -25,20 +25,30 @@ theorem planEntry_create_none {cfg : Cfg} {dst : Map DNode} {e : SEntry} (hk : e
       · exact (planFileAct_create_iff _ _ _).1 h
       · cases h
 
-/-- a directory is planned as `skip` where the destination has a directory, else as `create` -/
+/-- a directory is planned as `skip` where the destination has a directory, as `update` where it has a symlink
+    (replaced by a directory, fix 862af11), else as `create` -/
 theorem planEntry_dir_act {cfg : Cfg} {dst : Map DNode} {e : SEntry} (hk : e.kind = .dir) :
     (dst.get? e.rel = some .dir ∧ (planEntry cfg dst e).act = .skip) ∨
-    (dst.get? e.rel ≠ some .dir ∧ (planEntry cfg dst e).act = .create) := by
-  by_cases hd : dst.get? e.rel = some .dir
-  · exact Or.inl ⟨hd, by unfold planEntry; simp [hk, hd]⟩
-  · exact Or.inr ⟨hd, by unfold planEntry; simp only [hk]⟩
+    ((∃ s, dst.get? e.rel = some (.symlink s)) ∧ (planEntry cfg dst e).act = .update) ∨
+    (dst.get? e.rel ≠ some .dir ∧ (∀ s, dst.get? e.rel ≠ some (.symlink s)) ∧
+      (planEntry cfg dst e).act = .create) := by
+  cases hg : dst.get? e.rel with
+  | none => exact Or.inr (Or.inr ⟨by simp, by simp, by unfold planEntry; simp [hk, hg]⟩)
+  | some v =>
+    cases v with
+    | dir => exact Or.inl ⟨rfl, by unfold planEntry; simp [hk, hg]⟩
+    | symlink s => exact Or.inr (Or.inl ⟨⟨s, rfl⟩, by unfold planEntry; simp [hk, hg]⟩)
+    | file m => exact Or.inr (Or.inr ⟨by simp, by simp, by unfold planEntry; simp [hk, hg]⟩)
 
 /-- an `update` is planned only where the destination has something -/
 theorem planEntry_update_some {cfg : Cfg} {dst : Map DNode} {e : SEntry}
     (h : (planEntry cfg dst e).act = .update) : dst.get? e.rel ≠ none := by
   cases hk : e.kind with
   | dir =>
-    rcases planEntry_dir_act (cfg := cfg) (dst := dst) hk with ⟨_, h'⟩ | ⟨_, h'⟩ <;> rw [h'] at h <;> cases h
+    rcases planEntry_dir_act (cfg := cfg) (dst := dst) hk with ⟨_, h'⟩ | ⟨⟨s, hs⟩, _⟩ | ⟨_, _, h'⟩
+    · rw [h'] at h; cases h
+    · rw [hs]; simp
+    · rw [h'] at h; cases h
   | file m n =>
     unfold planEntry at h; simp only [hk] at h; exact planFileAct_update_some h
   | symlink text tgt =>
